@@ -120,10 +120,55 @@ def gen_case(rng, opts=None):
     def tables(c, cur):
         return srvcase.to_remote_tables(c, {t["name"]: {k: {a: v for a, v in row.items() if a in t["attrs"]}
                                                       for k, row in cur[t["name"]].items()} for t in c["types"]})
-    return {"cfgA": cfgA, "cfgB": cfgB, "cdmA": cdmA, "cdmB": cdmB, "edits": edits,
+    case = {"cfgA": cfgA, "cfgB": cfgB, "cdmA": cdmA, "cdmB": cdmB, "edits": edits,
             "h1": [tables(cfgA, p) for p in h1], "h2": [tables(cfgB, p) for p in h2],
             "final_rows": h2[-1], "p_fail": rng.choice([0.0, 0.0, 0.3]), "cseed": rng.randrange(1 << 30),
             "full": full}
+    if opts.get("pkey_move") and full["shape"] == "flat":
+        return add_pkey_move(rng, case)
+    return case
+
+
+def add_pkey_move(rng, case):
+    """third phase: the primary key of one type moves to another attribute ('alt' = id + 100,
+    present from the start); the second phase (client edits of the base case, handlers
+    failing) leaves queue entries - some of them purely local - for the key migration"""
+    full = case["full"]
+    cand = [t for t in full["types"] if len(t["pkey"]) == 1 and not t["fks"]
+            and all("L" + t["name"] in cdm for cdm in (case["cdmA"], case["cdmB"]))
+            and all(t["name"] in {u["name"] for u in c["types"]} for c in (case["cfgA"], case["cfgB"]))]
+    if not cand:
+        return case
+    t0 = rng.choice(cand)
+
+    def with_alt(cfg, moved):
+        c = copy.deepcopy(cfg)
+        for t in c["types"]:
+            if t["name"] == t0["name"]:
+                t["attrs"].append("alt")
+                t["mapping"]["alt"] = ("plain", "c_alt")
+                if moved:
+                    t["pkey"] = ["alt"]
+        return c
+
+    def alt_rows(tables):
+        tb = copy.deepcopy(tables)
+        for r in tb["src"].get("q_" + t0["name"], []):
+            r["c_alt"] = r["c_" + t0["pkey"][0]] + 100
+        return tb
+    cfgC = with_alt(case["cfgB"], True)
+    case["cfgA"], case["cfgB"] = with_alt(case["cfgA"], False), with_alt(case["cfgB"], False)
+    case["h1"] = [alt_rows(t) for t in case["h1"]]
+    h2 = [alt_rows(t) for t in case["h2"]]
+    cut = max(1, len(h2) - 1)
+    case["h2"], h3 = h2[:cut], (h2[cut:] or [h2[-1]])
+    for cdm in (case["cdmA"], case["cdmB"]):
+        cdm["L" + t0["name"]]["attrsmapping"]["l_alt"] = "alt"
+    case["phase3"] = {"cfg": cfgC, "cdm": copy.deepcopy(case["cdmB"]), "polls": h3}
+    t0["attrs"] = t0["attrs"] + ["alt"]          # the universe knows the attribute too (Gallina rendering)
+    case["edits"] = list(case["edits"]) + [("move_pkey", t0["name"])]
+    case["p_fail"] = rng.choice([0.0, 0.3, 0.5])
+    return case
 
 
 def run_client_life(wd, cdm, cworld, limit, nloops, day):
@@ -169,32 +214,38 @@ def run_case(case, wd):
 
     def as_bus(world):
         return [(i + 1, EPOCH + datetime.timedelta(seconds=10 * (i + 1)), json.dumps(e)) for i, e in enumerate(world["bus"])]
-    # ---- evolved system
+    # ---- evolved system: one server + client life per phase (same directories)
+    phases = [(case["cfgA"], case["cdmA"], case["h1"]), (case["cfgB"], case["cdmB"], case["h2"])]
+    if case.get("phase3"):
+        phases.append((case["phase3"]["cfg"], case["phase3"]["cdm"], case["phase3"]["polls"]))
     world = H.new_world()
-    server_run(wd + "/srv", case["cfgA"], case["h1"], world, True)
-    n1 = len(world["bus"])
     faults = {"on": True}
 
     def failfn(n, call, cl):
         return True if (faults["on"] and rng.random() < case["p_fail"]) else None
-    cworld = {"bus": as_bus(world), "next": n1 + 1, "calls": [], "ncall": 0, "failfn": failfn}
-    snapA = run_client_life(wd + "/cli", case["cdmA"], cworld, n1, 3, 0)
-    # switch: the server restarts under configuration B (same directory), then polls
-    server_run(wd + "/srv", case["cfgB"], case["h2"], world, False)
-    cworld["bus"] = as_bus(world)
-    cworld["next"] = len(world["bus"]) + 1
-    faults["on"] = False
-    snapB = run_client_life(wd + "/cli", case["cdmB"], cworld, len(world["bus"]), 8, 1)
+    cworld = {"bus": [], "next": 1, "calls": [], "ncall": 0, "failfn": failfn}
+    snaps, marks = [], []
+    for pi, (cfg, cdm, polls) in enumerate(phases):
+        server_run(wd + "/srv", cfg, polls, world, pi == 0)
+        marks.append(len(world["bus"]))
+        cworld["bus"] = as_bus(world)
+        cworld["next"] = len(world["bus"]) + 1
+        last = pi == len(phases) - 1
+        faults["on"] = not last
+        snaps.append(run_client_life(wd + "/cli", cdm, cworld, len(world["bus"]), 8 if last else 3, pi))
+    n1 = marks[0]
+    snapA, snapB = snaps[0], snaps[-1]
     evolved_calls = list(cworld["calls"])
+    final_cfg, final_cdm, final_polls = phases[-1]
     # ---- fresh deployment of configuration B on the final source state
     fworld = H.new_world()
-    server_run(wd + "/fsrv", case["cfgB"], [case["h2"][-1]], fworld, True)
+    server_run(wd + "/fsrv", final_cfg, [final_polls[-1]], fworld, True)
     fcw = {"bus": as_bus(fworld), "next": len(fworld["bus"]) + 1, "calls": [], "ncall": 0, "failfn": None}
-    fsnap = run_client_life(wd + "/fcli", case["cdmB"], fcw, len(fworld["bus"]), 6, 1)
+    fsnap = run_client_life(wd + "/fcli", final_cdm, fcw, len(fworld["bus"]), 6, 1)
     H.rmtree(wd)
     from lib.datamodel.serialization import JSONSerializable
     parse = lambda w: [json.loads(json.dumps(e), object_hook=JSONSerializable._json_parser) for e in w["bus"]]
-    return {"bus": parse(world), "n1": n1, "snapA": snapA, "snapB": snapB, "fresh": fsnap,
+    return {"bus": parse(world), "n1": n1, "snapA": snapA, "snapB": snapB, "fresh": fsnap, "snaps": snaps, "marks": marks,
             "evolved_calls": evolved_calls, "fresh_calls": list(fcw["calls"]), "fbus": parse(fworld)}
 
 
@@ -219,17 +270,20 @@ def analyse(case, res):
     out = []
     bus = res["bus"]
     n1 = res["n1"]
+    three = bool(case.get("phase3"))
     # 1. the new schema is announced before any event that depends on it, after the removals of dropped types
     sch = [i for i, e in enumerate(bus) if e["eventtype"] == "dataschema"]
     sig_of = lambda c: sorted((t["name"], tuple(sorted(t["attrs"]))) for t in c["types"])
     server_edit = sig_of(case["cfgA"]) != sig_of(case["cfgB"])
+    if three:
+        sch, server_edit = [0], False       # bus-order clauses are decided on the two-phase cases
     if server_edit and not sch:
         out.append(("schema-not-announced", f"edits {case['edits']}"))
     dropped = {e[1] for e in case["edits"] if e[0] == "remove_type"}
     added_t = {e[1] for e in case["edits"] if e[0] == "add_type"}
     added_a = {(e[1], e[2]) for e in case["edits"] if e[0] == "add_attr"}
     first_sch = sch[0] if sch else len(bus)
-    for i, e in enumerate(bus):
+    for i, e in enumerate(bus if not three else []):
         if i < n1 or e["evcategory"] != "base" or e["eventtype"] not in ("added", "modified", "removed"):
             continue
         if e["objtype"] in dropped and i > first_sch:
@@ -249,7 +303,7 @@ def analyse(case, res):
         elif e["evcategory"] == "base" and e["eventtype"] == "removed":
             live.pop((e["objtype"], canon(e["objpkey"])), None)
     removed_after = {(e["objtype"], canon(e["objpkey"])) for e in bus[n1:] if e["eventtype"] == "removed"}
-    for (t, k) in live:
+    for (t, k) in (live if not three else {}):
         if t in dropped and (t, k) not in removed_after:
             out.append(("no-removed-event-for-object-of-dropped-type", f"{t} {k}"))
     # 3. evolved == fresh: local data and (idempotent) target
@@ -257,7 +311,8 @@ def analyse(case, res):
     fr_local = {t: objs for t, objs in res["fresh"]["localdata"].items() if not t.startswith("trashbin_")}
     if canon(ev_local) != canon(fr_local):
         out.append(("local-data-differ-from-fresh-deployment", f"evolved {ev_local} / fresh {fr_local}"))
-    if canon({f"{k[0]}|{k[1]}": v for k, v in target_of(res["evolved_calls"]).items()}) != \
+    # (after a primary-key move the handler keys change: renaming the target objects is the concrete client's business)
+    if not three and canon({f"{k[0]}|{k[1]}": v for k, v in target_of(res["evolved_calls"]).items()}) != \
             canon({f"{k[0]}|{k[1]}": v for k, v in target_of(res["fresh_calls"]).items()}):
         out.append(("target-differs-from-fresh-deployment",
                     f"evolved {target_of(res['evolved_calls'])} / fresh {target_of(res['fresh_calls'])}"))
@@ -282,7 +337,10 @@ def lifecycle_has_readd(res):
 
 
 def step_gallina(case, res):
-    """the schema step of the restarted server as an ecase"""
+    """the schema step of the restarted server as an ecase (two-phase cases; the three-phase
+    cases are about the final state only)"""
+    if case.get("phase3"):
+        return "(ECase [] [] (mk_world []) [])"
     full = case["full"]
     fake_case = {"cfg": full, "cdm": {"L" + t["name"]: {"hermesType": t["name"], "attrsmapping": {}} for t in full["types"]}}
     events = [(i + 1, 10 * (i + 1), e) for i, e in enumerate(res["bus"]) if e["eventtype"] in ("added", "modified", "removed")]
